@@ -27,7 +27,14 @@ fn main() {
         }
     }
     // silent panic hook: panics are data here
-    std::panic::set_hook(Box::new(|_| {}));
+    let default_hook = std::panic::take_hook();
+    std::panic::set_hook(Box::new(move |info| {
+        // panics on worker threads are data (caught and judged); a panic on
+        // the main thread is a bug in the engine and must be visible
+        if std::thread::current().name() == Some("main") || std::env::var_os("LRUMC_DEBUG_PANICS").is_some() {
+            default_hook(info);
+        }
+    }));
     let code = match args.get(1).map(|s| s.as_str()) {
         Some("explore") => plan::cmd_explore(&opt),
         Some("replay") => plan::cmd_replay(&opt),
